@@ -1,5 +1,41 @@
 import BigtreeModel.Proto
-/-! Driver handler for property C03: one case (token list) in, one canonical line out. -/
+import BigtreeModel.StorePath
+import BigtreeModel.Drv.C01
+/-! Driver handler for property C03: Node histories (line shape of C01, `cls=node`).
+
+Output: for each op `<ok|rej> <store> | <i=xpath_name,depth,xsep …>` joined by ` ; `, then ` ;; `
+and, for the final store, `find_full_path(start, path_name(u))` for every ordered pair as
+`start>u=<id|-|!>` plus, from `u` itself, the variants without the leading separator (`a:u=`) and with
+a trailing separator (`b:u=`). -/
 namespace Drv.C03
-def handle (_toks : List String) : String := "unimplemented"
+open Proto Drv.C01
+
+def showLookup : Option (Option Nat) → String
+  | none => "!"
+  | some none => "-"
+  | some (some v) => toString v
+
+def showPaths (s : Store) : String :=
+  " ".intercalate ((List.range s.n).map fun i =>
+    toString i ++ "=" ++ hex (s.pathName i) ++ "," ++ toString (s.depth i) ++ "," ++ hex (s.sep i))
+
+def showLookups (s : Store) : String :=
+  let ids := List.range s.n
+  let pairs := ids.flatMap fun st => ids.map fun u =>
+    toString st ++ ">" ++ toString u ++ "=" ++ showLookup (s.findFullPath st (s.pathName u))
+  let vars := ids.flatMap fun u =>
+    let sp := s.sep u
+    [ "a:" ++ toString u ++ "=" ++ showLookup (s.findFullPath u ((s.pathName u).drop sp.length)),
+      "b:" ++ toString u ++ "=" ++ showLookup (s.findFullPath u (s.pathName u ++ sp)) ]
+  " ".intercalate (pairs ++ vars)
+
+def handle (toks : List String) : String :=
+  match parseCase toks with
+  | none => "bad-op"
+  | some c =>
+    if !c.cfg.node then "bad-op" else
+    let tr := Store.trace c.cfg c.init c.ops
+    let final := (tr.getLast?.map (·.2)).getD c.init
+    " ; ".intercalate (tr.map fun (o, s) => showOutcome o ++ " " ++ showStore s ++ " | " ++ showPaths s)
+      ++ " ;; " ++ showLookups final
 end Drv.C03
